@@ -764,10 +764,13 @@ def main():
     if a.job:
         spec = dict(spec); spec["jobs"] = [j for j in spec["jobs"] if re.search(a.job, j["name"])]
     os.makedirs(WORK, exist_ok=True)
-    # drop caches of other source trees (disk hygiene)
+    # drop caches of other source trees (disk hygiene) -- only stale ones, another check may still be using a recent one
     for d in os.listdir(WORK):
+        pth = os.path.join(WORK, d)
         if d.startswith("cache-") and d != "cache-" + tree_hash():
-            shutil.rmtree(os.path.join(WORK, d), ignore_errors=True)
+            try:
+                if time.time() - os.path.getmtime(pth) > 3 * 3600: shutil.rmtree(pth, ignore_errors=True)
+            except OSError: pass
     sys.exit(check_property(a.prop, a.tier, spec, seed))
 
 if __name__ == "__main__":
